@@ -433,6 +433,62 @@ def witness_reserved(name: str) -> dict:
     return d
 
 
+def witness_nonvacuous() -> dict:
+    nv = base_doc()
+    nv["parameters"].append({"id": "q1", "value": [0, 1]})
+    nv["rules"].append({"var": "q1", "math": ["add", _s("k1"), ["mul", _s("A"), _n(2)]]})
+    nv["inits"].append({"sym": "k3", "math": ["mul", _s("k1"), _n(2)]})
+    nv["inits"].append({"sym": "B", "math": ["add", _s("k1"), _n(1)]})
+    nv["species"].append({"id": "lambda", "comp": "c", "init": [2, 1], "kind": "amount"})
+    nv["reactions"][0]["math"] = ["mul", ["mul", _s("k3"), _s("A")], _s("q1")]
+    nv["reactions"].append({"id": "v2", "reactants": [["B", [1, 2]]], "products": [["lambda", [1, 1]]], "math": ["mul", _s("B"), _s("lambda")]})
+    return nv
+
+
+def witness_keyword_twin() -> dict:
+    """`if` and `if_` are different legal SBML ids; the keyword escape maps both to `if_`"""
+    d = base_doc()
+    d["parameters"] += [{"id": "if", "value": [2, 1]}, {"id": "if_", "value": [5, 1]}]
+    d["reactions"][0]["math"] = ["mul", ["mul", _s("if"), _s("A")], _s("if_")]
+    return d
+
+
+def doc_ids(doc: dict) -> list[str]:
+    out = [c["id"] for c in doc.get("compartments", [])] + [s["id"] for s in doc.get("species", [])]
+    out += [p["id"] for p in doc.get("parameters", [])] + [r["id"] for r in doc.get("reactions", [])]
+    return out + [f["id"] for f in doc.get("functions", [])]
+
+
+def id_twins(doc: dict) -> list[tuple[str, str]]:
+    """pairs of different ids of the document that the (external) renaming maps to the same name -- guard of
+    the recorded finding C17-keyword-escape-not-injective"""
+    ids = doc_ids(doc)
+    return [(a, b) for i, a in enumerate(ids) for b in ids[i + 1 :] if a != b and py_name(a) == py_name(b)]
+
+
+# name in coq/sbmlimp/SbmlWitness.v -> document
+WITNESS_TMS = [
+    ("w_base1", lambda: base_doc(1)),
+    ("w_base5", lambda: base_doc(5)),
+    ("w_stoich_coll", lambda: witness_stoich_collision()),
+    ("w_init_coll", lambda: witness_init_collision(False)),
+    ("w_init_coll_same", lambda: witness_init_collision(True)),
+    ("w_nonvac", lambda: witness_nonvacuous()),
+]
+
+
+def witness_literals(sess: "Session") -> list[tuple[str, str]]:
+    out = []
+    for name, mk in WITNESS_TMS:
+        p = sess.path("wit_" + name)
+        S.write_sbml(mk(), p)
+        try:
+            out.append((name, I.ctmodel(I.transformed(p))))
+        except Exception:  # noqa: BLE001
+            out.append((name, "(mkT [] [] [] [] [])"))
+    return out
+
+
 def collision_variant(rng, doc: dict) -> dict | None:  # noqa: ANN001
     """rename a rule-defined parameter so that its function name collides with an initial-assignment or
     stoichiometry function of the same document"""
@@ -522,28 +578,61 @@ def run_doc(sess: Session, doc: dict, stem: str, states: list[dict[str, Fraction
     return out
 
 
-def coq_case(stem: str, tm: dict, states: list[dict[str, Fraction]], res: dict) -> str:
-    values = I.tm_exact(tm) and I.obs_exact(res["obs"])
+def float_rounded(doc: dict, res: dict, states: list[dict[str, Fraction]]) -> bool:
+    """True when some number the implementation returned is CLOSE to the document's exact rational value but
+    not equal to it: binary64 rounding happened, so the exact (Q) run of the Coq model cannot be compared with
+    it number by number (the oracle still judges the document with its tolerance)."""
+    if res["obs"][0] != "Val":
+        return False
+    try:
+        M = S.Meaning(doc)  # noqa: N806
+        init = M.initial()
+        _, ic, per = res["obs"]
+        pairs = [(ic.get(py_name(k)), v) for k, v in init.items()]
+        for st, (args, rhs) in zip(states, per, strict=True):
+            vals = M.values(st, init)
+            der = M.derivative(st, init)
+            pairs += [(args.get(py_name(k)), v) for k, v in vals.items()]
+            pairs += [(rhs.get(py_name(k)), v) for k, v in der.items()]
+        for got, want in pairs:
+            if got is None or not isinstance(want, Fraction):
+                continue
+            g = float(got)
+            if math.isfinite(g) and Fraction(*g.as_integer_ratio()) != want and close(g, want):
+                return True
+    except Exception:  # noqa: BLE001
+        return False
+    return False
+
+
+def coq_case(stem: str, tm: dict, states: list[dict[str, Fraction]], res: dict, rounded: bool = False) -> str:
+    values = I.tm_exact(tm) and I.obs_exact(res["obs"]) and not rounded
     obs = I.cobs(res["obs"]) if values else "ErrOther"
     sts = I.cstates(impl_states(states)) if values else "[]"
+    tab = I.arg_orders(res["model"], tm) if res.get("model") is not None else []
     return (
         f"(mkCase {I.ctmodel(tm)} {cstr(stem)} {sts} {clist(map(cstr, res['keys']))} "
-        f"{I.cstruct(res['struct'])} {obs} {cbool(values)})"
+        f"{I.cstruct(res['struct'])} {obs} {cbool(values)} {I.cfs(tab)})"
     )
 
 
-def corr_file(cases: list[str], stems: list[tuple[str, str]], pairs: list[str]) -> str:
+def corr_file(cases: list[str], stems: list[tuple[str, str]], pairs: list[str], guards: list[bool] = (), witnesses: list[tuple[str, str]] = ()) -> str:
     body = ";\n  ".join(cases)
     return (
         "From Coq Require Import String List ZArith QArith Bool.\nFrom MxlBase Require Import ListX.\n"
-        "From SbmlImp Require Import SbmlExpr SbmlImport SbmlRun GenSbmlFacts.\nImport ListNotations.\nOpen Scope string_scope.\n"
+        "From SbmlImp Require Import SbmlExpr SbmlImport SbmlRun SbmlSpec SbmlProofs SbmlWitness GenSbmlFacts.\nImport ListNotations.\nOpen Scope string_scope.\n"
         "Definition cases : list case := [\n  " + body + "\n].\n"
+        "Definition guards : list bool := " + clist(cbool(g) for g in guards) + ".\n"
+        "Definition guard_mismatches := filter_idx (fun p => negb (Bool.eqb (nodup_strb (fn_keys gen_facts fsyms (c_tm (fst p)))) (snd p))) (combine cases guards).\n"
+        "Definition witnesses : list (tmodel * tmodel) := " + clist(f"({a}, {b})" for a, b in witnesses) + ".\n"
+        "Definition witness_mismatches := filter_idx (fun p => negb (tmodel_eqb (fst p) (snd p))) witnesses.\n"
         "Definition stems : list (string * string) := " + clist(f"({cstr(a)}, {cstr(b)})" for a, b in stems) + ".\n"
         "Definition pairs : list (option bool * option bool) := " + clist(pairs) + ".\n"
         "Definition mismatches := filter_idx (fun c => negb (case_ok gen_facts c)) cases.\n"
         "Definition stem_mismatches := filter_idx (fun p => negb (String.eqb (valid_filename gen_facts (fst p)) (snd p))) stems.\n"
         "Definition pair_mismatches := filter_idx (fun p => match fst p, snd p with Some a, Some b => negb (Bool.eqb a b) | _, _ => true end) pairs.\n"
         "Eval vm_compute in mismatches.\nEval vm_compute in stem_mismatches.\nEval vm_compute in pair_mismatches.\n"
+        "Eval vm_compute in guard_mismatches.\nEval vm_compute in witness_mismatches.\n"
     )
 
 
@@ -661,6 +750,7 @@ def _check_body(run: Run, rng, sess: Session, thorough: bool, proofs_ok: bool) -
     outcomes: dict[str, int] = {}
     skipped: dict[str, int] = {}
     coq_cases: list[str] = []
+    coq_guards: list[bool] = []
     coq_meta: list[dict] = []
     n_viol = 0
     known_hits: dict[str, int] = {}
@@ -679,17 +769,34 @@ def _check_body(run: Run, rng, sess: Session, thorough: bool, proofs_ok: bool) -
         if tm is None:
             bump(skipped, r["tm_error"].split(":")[0] + " (not sent to Coq)")
         else:
-            coq_cases.append(coq_case(stem, tm, states, res))
-            coq_meta.append({"doc": _doc_public(doc), "stem": stem, "values": I.tm_exact(tm) and I.obs_exact(res["obs"])})
+            rounded = float_rounded(doc, res, states)
+            coq_cases.append(coq_case(stem, tm, states, res, rounded))
+            coq_guards.append(not r["guards"][0])
+            coq_meta.append({"doc": _doc_public(doc), "stem": stem, "values": I.tm_exact(tm) and I.obs_exact(res["obs"]) and not rounded})
             if not coq_meta[-1]["values"]:
                 bump(skipped, "values not compared in Coq (transcendental or inexact)")
         probs = judge(doc, res, states)
         coll, resv = r["guards"]
+        if (
+            probs
+            and res["obs"][0] != "Val"
+            and res.get("exc") == "TypeError"
+            and "expecting bool or Boolean" in (res.get("read_error") or "")
+            and tm is None
+            and (r["tm_error"] or "").startswith("untranslatable: condition")
+        ):
+            # pysbml folded a relation over a piecewise into a boolean-valued Piecewise/ITE inside a condition; sympy's
+            # pycode printer raises on it (sympy/printing/pycode.py _print_ITE): the read is REFUSED loudly, no model
+            # is built -- external limitation, outside the subset the property quantifies over
+            bump(skipped, "refused loudly by sympy's printer: boolean piecewise inside a condition (external, no model built)")
+            return
         if probs:
             if coll:
                 bump(known_hits, "C17-function-key-collision")
             elif resv:
                 bump(known_hits, "C17-reserved-name-capture")
+            elif id_twins(doc):
+                bump(known_hits, "C17-keyword-escape-not-injective")
             elif n_viol < 4:
                 n_viol += 1
                 run.violation(
@@ -701,6 +808,16 @@ def _check_body(run: Run, rng, sess: Session, thorough: bool, proofs_ok: bool) -
             good_docs.append((doc, states))
         if len(run.samples) < 3 and not probs and not expect_finding:
             run.sample({"document": _doc_public(doc), "stem": stem, "read_ok": True, "rhs_at_initial_state": res["obs"][2][0][1] if res["obs"][0] == "Val" else None})
+
+    # ---- corpus of minimised past failures (of the check itself) first -------------------
+    import json
+
+    corpus_file = Path(__file__).with_name("c17_corpus.json")
+    if corpus_file.exists():
+        for ent in json.loads(corpus_file.read_text()):
+            states = [{k: Fraction(v[0], v[1]) for k, v in st.items()} for st in ent["states"]]
+            bump(dist, "corpus")
+            handle(ent["doc"], "corpus_" + ent["name"][:20].replace("-", "_"), states, expect_finding=bool(ent.get("finding_region")))
 
     # ---- the main stream ----------------------------------------------------------------
     for i in range(n_docs):
@@ -787,16 +904,18 @@ def _check_body(run: Run, rng, sess: Session, thorough: bool, proofs_ok: bool) -
     files = {}
     per = 60
     chunks = common.chunks(coq_cases, per)
-    for k, chunk in enumerate(chunks):
-        files[f"c17_{k:04d}"] = corr_file(list(chunk), stem_pairs if k == 0 else [], pair_lits if k == 0 else [])
+    gchunks = common.chunks(coq_guards, per)
+    wit_lits = witness_literals(sess)
+    for k, (chunk, gchunk) in enumerate(zip(chunks, gchunks, strict=True)):
+        files[f"c17_{k:04d}"] = corr_file(list(chunk), stem_pairs if k == 0 else [], pair_lits if k == 0 else [], list(gchunk), wit_lits if k == 0 else [])
     if not files:
-        files["c17_0000"] = corr_file([], stem_pairs, pair_lits)
+        files["c17_0000"] = corr_file([], stem_pairs, pair_lits, [], wit_lits)
     res = common.coq_eval_many(AREA, files, timeout_s=900)
     mism = 0
     for k, name in enumerate(sorted(files)):
         ok, out = res[name]
         lists = common.parse_eval_list(out) if ok else None
-        if not ok or not lists or len(lists) != 3:
+        if not ok or not lists or len(lists) != 5:
             run.broken_correspondence.append(f"correspondence shard {name} did not evaluate: {out[-400:]}")
             continue
         for j in lists[0]:
@@ -812,7 +931,17 @@ def _check_body(run: Run, rng, sess: Session, thorough: bool, proofs_ok: bool) -
             mism += 1
             if len(run.broken_correspondence) < 6:
                 run.broken_correspondence.append(f"two documents: model/implementation disagree on whether getsource is kept: {pair_meta[j]}")
-    run.coverage["traces_validated_against_impl"] = len(coq_cases) + len(stem_pairs) + len(pair_lits) - mism
+        for j in lists[3]:
+            mism += 1
+            meta = coq_meta[k * per + j]
+            if len(run.broken_correspondence) < 6:
+                run.broken_correspondence.append(
+                    f"guard NoKeyCollision: the model's function-key list and the harness' independent list of generated def names disagree on document #{k * per + j} (stem {meta['stem']!r})"
+                )
+        for j in lists[4]:
+            mism += 1
+            run.broken_correspondence.append(f"fixed witness {WITNESS_TMS[j][0]} of coq/sbmlimp/SbmlWitness.v is no longer what pysbml returns for its document")
+    run.coverage["traces_validated_against_impl"] = 2 * len(coq_cases) + len(stem_pairs) + len(pair_lits) + len(wit_lits) - mism
     run.coverage["correspondence_mismatches"] = mism
     run.coverage["findings_region_hits"] = known_hits
 
@@ -841,11 +970,15 @@ def replay_witness(sess: Session, w: dict) -> str | None:
     """-> description of the failure if the witness still fails, else None"""
     kind = w.get("kind")
     if kind == "finding:doc":
-        doc = WITNESSES[w["name"]]()
-        states = pick_states(common.rng_for(0, "w"), doc, S.Meaning(doc), 2)
-        r = run_doc(sess, doc, "witness_" + w["name"], states)
-        probs = judge(doc, r["res"], states)
-        return probs[0] if probs else None
+        first = None
+        for name in w.get("names") or [w["name"]]:
+            doc = WITNESSES[name]()
+            states = pick_states(common.rng_for(0, "w"), doc, S.Meaning(doc), 2)
+            r = run_doc(sess, doc, "witness_" + name, states)
+            probs = judge(doc, r["res"], states)
+            if probs and first is None:
+                first = f"[{name}] {probs[0]}"
+        return first
     if kind == "finding:same-stem":
         r = two_documents(sess, base_doc(1), base_doc(5), "My Model", "my-model", [], [])
         if r["error"]:
@@ -860,6 +993,7 @@ WITNESSES = {
     "init_collision": lambda: witness_init_collision(False),
     "reserved_math": lambda: witness_reserved("math"),
     "reserved_Model": lambda: witness_reserved("Model"),
+    "keyword_twin": witness_keyword_twin,
 }
 
 
